@@ -9,6 +9,7 @@ CONSTANTS
   Txns = {txns}
   MaxVal = {maxval}
   MaxOps = {maxops}
+  Branchable = FALSE
 VIEW view
 INVARIANTS TypeOK FirstCommitterWins SnapshotStable EventsMatchCommits
 PROPERTIES NoDirtyWrite NotifiedOnlyOnCommit DiscardNoTrace
@@ -20,6 +21,7 @@ CONSTANTS
   Txns = {txns}
   MaxVal = {maxval}
   MaxOps = {maxops}
+  Branchable = FALSE
 VIEW view
 ACTION_CONSTRAINT ExportLeaves
 CHECK_DEADLOCK FALSE
@@ -30,16 +32,17 @@ CONSTANTS
   Txns = {{1,2,3}}
   MaxVal = 9
   MaxOps = 0
+  Branchable = {branchable}
   CheckEvents = {events}
 INVARIANTS TypeOK FirstCommitterWins SnapshotStable
 VIEW TraceView
 CHECK_DEADLOCK TRUE
 """
 
-def validate(run, trace, events=True, label="trace"):
+def validate(run, trace, events=True, label="trace", branchable=False):
     """Returns None if accepted, else the index (1-based) of the rejected line."""
     st = run.tlc("Trace_KVTxn.tla", "trace_%s.cfg" % label, workers=1, timeout=1200, env={"VERIF_TRACE": trace},
-                 cfg_text=TRACE.format(events="TRUE" if events else "FALSE"), expect_violation=True,
+                 cfg_text=TRACE.format(events="TRUE" if events else "FALSE", branchable="TRUE" if branchable else "FALSE"), expect_violation=True,
                  label="Trace_KVTxn(%s,%s)" % (label, "events" if events else "noevents"))
     out = st["out"]
     if "Deadlock reached" in out or "deadlock" in out.lower() and "l =" in out:
@@ -147,9 +150,10 @@ def check(run, replay, prop):
         L = [json.loads(l) for l in open(trace)]
         if not samples and L:
             samples = [[{k: v for k, v in l.items() if k in ("op", "t", "d", "v", "res", "rows", "evs")} for l in schedule_of(L, min(3, len(L)))[0]]]
-        rej = validate(run, trace, True, "t%d" % i)
+        br = variant == "branchable"
+        rej = validate(run, trace, True, "t%d" % i, br)
         if rej is not None:
-            rej_noev = validate(run, trace, False, "t%dne" % i)
+            rej_noev = validate(run, trace, False, "t%dne" % i, br)
             sched, pos = schedule_of(L, rej)
             line = L[rej - 1]
             # with notifications ignored the trace passes up to / beyond this line => the disagreement is about notifications (C20)
